@@ -31,6 +31,8 @@ def alphabet():
         ops.append(("hash", f))
         ops.append(("sv", f))
     ops += [("many",), ("build",), ("imd5",), ("update",)]
+    # the previous index goes through its serialised form (as dvc keeps it between runs)
+    ops += [("serial", "json"), ("serial", "db")]
     # a user write that lands *during* a library call, between hashing and recording
     ops += [("build-midwrite", "f1"), ("hash-midwrite", "f1"), ("imd5-midwrite", "f1")]
     return ops
@@ -64,6 +66,7 @@ def run_history(hist, init):
         state = State(root_dir=w.root, tmp_dir=w.p("tmp"))
         odb = make_odb("local", w.p("odb"), state=state)
         paths = {f: os.path.join(ws, f) for f in FILES}
+        paths["ln"] = os.path.join(ws, "ln")
         prev_idx = None
 
         def write(p, data):
@@ -72,7 +75,10 @@ def run_history(hist, init):
             stamp(p, US)
 
         try:
-            if init == "warm":
+            if init == "warm+link":
+                # the staged directory also holds a symlink to f1
+                os.symlink(paths["f1"], paths["ln"])
+            if init in ("warm", "warm+link"):
                 write(paths["f1"], C["c1"])
                 hash_file(paths["f1"], LFS, "md5", state=state)
                 idx0 = ibuild(ws, LFS)
@@ -119,6 +125,8 @@ def run_history(hist, init):
                     elif k == "rm":
                         if os.path.exists(p):
                             os.unlink(p)
+                            if op[1] == "f1" and os.path.islink(paths["ln"]):
+                                os.unlink(paths["ln"])  # no dangling link is left behind (staging refuses those)
                             tick(US)
                 elif k in ("get", "geti"):
                     p = paths[op[1]]
@@ -203,6 +211,17 @@ def run_history(hist, init):
                             if os.path.exists(paths[f]):
                                 _m, hi2 = state.get(paths[f], LFS)
                                 answer("get-after-midwrite", f, hi2.value if hi2 is not None and hi2.name == "md5" else None, i, op)
+                elif k == "serial":
+                    if prev_idx is not None:
+                        from dvc_data.index.serialize import read_db, read_json, write_db, write_json
+
+                        sp = w.p(f"index-{i}.{op[1]}")
+                        if op[1] == "json":
+                            write_json(prev_idx, sp)
+                            prev_idx = read_json(sp)
+                        else:
+                            write_db(prev_idx, sp)
+                            prev_idx = read_db(sp)
                 elif k == "update":
                     if prev_idx is not None:
                         new = ibuild(ws, LFS)
@@ -395,8 +414,9 @@ def run(ctx):
     ctx.rule = (
         f"E2: every history of length {depth} over {len(ops)} operations on 2 files (write c1 / c2 same size / "
         "c3 other size, atomic replace, atomic replace keeping size and mtime, touch, delete, a write landing inside a build / hash_file / index md5 call between hashing and recording; state.get with/without caller info, get_many, hash_file, "
-        "state.save, dry staging build, index build+md5, index update from the previous index) from a cold and "
-        "from a warm initial state, under a strictly increasing logical clock; batch lookups of "
+        "state.save, dry staging build, index build+md5, index update from the previous index, the previous index "
+        "going through write_json/read_json or write_db/read_db) from a cold, a warm and a warm initial state "
+        "whose directory also holds a symlink to f1, under a strictly increasing logical clock; batch lookups of "
         "{1,2,998,999,1000,1001,1999} paths in both orders with entries invalidated at the chunk edges; forged "
         "entries (other algorithm, newer version, non-local fs, corrupt row); non-trivial = history with a "
         "mutation and at least one cache hit"
@@ -409,7 +429,7 @@ def run(ctx):
     ]
     ctx.require("answers", "hits", "batch_lookups", "batch_hits", "forged_checks")
     cs = []
-    for init in ("cold", "warm"):
+    for init in ("cold", "warm", "warm+link"):
         for a in ops:
             for b in (ops if depth >= 4 else [None]):
                 pre = [list(a)] + ([list(b)] if b else [])
